@@ -87,7 +87,8 @@ bool nano::is_convex(const function_t& function, const vector_t& x1, const vecto
 
 bool nano::convex(const matrix_t& P)
 {
-    const auto eigenvalues         = P.matrix().eigenvalues();
+    // NB: x.dot(P * x) only depends on the symmetric part of P!
+    const auto eigenvalues         = (0.5 * (P.matrix() + P.matrix().transpose())).eigenvalues();
     const auto positive_eigenvalue = [](const auto& eigenvalue) { return eigenvalue.real() >= 0.0; };
 
     return std::all_of(begin(eigenvalues), end(eigenvalues), positive_eigenvalue);
@@ -95,7 +96,8 @@ bool nano::convex(const matrix_t& P)
 
 scalar_t nano::strong_convexity(const matrix_t& P)
 {
-    const auto eigenvalues = P.matrix().eigenvalues();
+    // NB: x.dot(P * x) only depends on the symmetric part of P!
+    const auto eigenvalues = (0.5 * (P.matrix() + P.matrix().transpose())).eigenvalues();
     const auto peigenvalue = [](const auto& lhs, const auto& rhs) { return lhs.real() < rhs.real(); };
 
     const auto* const it = std::min_element(begin(eigenvalues), end(eigenvalues), peigenvalue);
